@@ -191,6 +191,19 @@ def _run(ck):
                     ck.ob('R16.2', 'cxx-valid|%s|%s,%s' % (kind, lc if ln != 'int-literal' else 'int-literal', rc if rn != 'int-literal' else 'int-literal'), ok, '',
                           'std::%s(%s, %s) deduces one type' % (kind.lower(), lc, rc) if ok else
                           'admitted and printed as std::%s(<%s>, <%s>): template argument deduction fails for different argument types' % (kind.lower(), lc, rc))
+        # console.log(x) is printed as `qDebug().noquote() << <x>` for whatever the builder admits
+        TDL = dict(TD)
+        TDL.update({'null': ('NullPointer',), 'empty-list': ('EmptyList',)})
+        for tn, tt in TDL.items():
+            g = c05.dyn_builtin(I4, ('ConsoleLog', ('Debug',)), [tt])
+            if g is None:
+                continue
+            n2 += 1
+            tc = cxx_type(tn)
+            row = ORA['builtin'].get('ConsoleLog', {})
+            ok = tc in row.get('valid', []) and not isinstance(g, str)
+            ck.ob('R16.2', 'cxx-valid|ConsoleLog|%s' % tn, ok, '', '`qDebug() << <%s>` is well-formed' % tc if ok else
+                  'console.log(<%s>) is admitted and printed as `qDebug() << ..`, which is ill-formed for that operand (%s)' % (tn, g if isinstance(g, str) else row.get('why', '')))
     ck.floor('R16.2', n2, 60, 'admitted operator/builtin cells')
 
     # ---- R16.3 ----------------------------------------------------------------------------------------------------------
@@ -750,8 +763,58 @@ def cxx_denotes(text, ch):
     return False
 
 
+def implicit_conversions(ck, L):
+    """R16.7: wherever the type checker says `assignable`, the emitter writes a plain C++ initialisation / return / argument: the pair
+    must be an implicit conversion in C++. Decision table of typeutil::is_assignable (evaluated as in C05) against the C++ rules."""
+    import aeval
+    import rules.c05 as c05
+    ck.rule('R16.7', 'every pair the type checker accepts as assignable is an implicit conversion in C++')
+    fnname = 'typeutil::is_assignable'
+    if fnname not in L.fns:
+        ck.floor('R16.7', 0, 1, 'fn ' + fnname)
+        return
+    I = aeval.Interp(L, stubs=c05.base_stubs())
+
+    def cxx_implicit(exp, act):
+        """(valid, why) for `Exp x = <value of act>;` in C++17 with Qt types."""
+        if act == ('ConstInteger',):
+            return (exp in (c05.INT, c05.UINT, c05.DOUBLE), 'integer literal')
+        if act == ('ConstString',):
+            return (exp == c05.STRING, 'QStringLiteral')
+        if act == ('NullPointer',):
+            return (exp[0] == 'Pointer', 'nullptr')
+        if act == ('EmptyList',):
+            return (exp[0] == 'List', 'empty braces')
+        a = act[1]
+        if a == exp:
+            return (True, 'same type')
+        if exp[0] == 'Pointer' and a[0] == 'Pointer' and c05.derived(a[1][1], exp[1][1]):
+            return (True, 'derived-to-base pointer conversion')
+        if exp == c05.E2 and a == c05.E1:
+            return (True, 'QFlags<E>(E) converting constructor')
+        if exp == c05.E1 and a == c05.E2:
+            return (False, 'QFlags<E> converts to int, and int does not convert to the enumeration E implicitly')
+        return (False, 'no implicit conversion known to the oracle')
+    n = 0
+    for exp in c05.TKS:
+        for act in c05.TDS:
+            try:
+                got = I.call(fnname, [exp, act], 0)
+            except aeval.Undecided:
+                continue          # C05 R5.1 reports cells that cannot be evaluated
+            if got != ('Ok', True):
+                continue
+            n += 1
+            ok, why = cxx_implicit(exp, act)
+            ck.ob('R16.7', 'implicit|%s<-%s' % (c05.nm(exp), c05.nm(act)), ok, '',
+                  '%s from %s: %s' % (c05.nm(exp), c05.nm(act), why) if ok else
+                  'a %s value is accepted where %s is expected and written without a cast (return / assignment / argument), but C++ has no such implicit conversion: %s' % (c05.nm(act), c05.nm(exp), why))
+    ck.floor('R16.7', n, 24, 'assignable cells')
+
+
 def _shares(ck, L):
     """obligations of other checks that C16's clauses rest on (same facts)."""
+    implicit_conversions(ck, L)
     import core as _core
     import rules.c03 as c03
     s3 = _core.Shared(ck, 'R16.1', lambda r, k: r == 'R3.1', 'C03:', ' [the C++ literal is spelled from the decoded string: an undecoded escape is escaped once more and denotes other characters]')
